@@ -61,20 +61,23 @@ theorem fieldsL_eq_flatMap (es : List Obj) : fieldsL c es = es.flatMap (fields c
   | nil => rfl
   | cons x xs ih => simp [fieldsL, ih]
 
-/-- what the Mark instance of the object's type hands on (given that the type has one) -/
-def markBody (c : Cfg) : Obj → List Word
+/-- what the Mark instance of the object's type hands on (given that the type has one).  `own`: the object is the marking
+    thread's `current(Thread)`; `Thread_Mark` walks `t->tls` always (`c.foreignTls`, the source as it is) or only then (the
+    variant of the withdrawn repair 80c795e) -/
+def markBody (c : Cfg) (own : Bool) : Obj → List Word
   | .raw _ _ => []
   | .cont _ es => fieldsL c es
   | .tup _ items => items
-  | .thr _ tls => viaMark c tls
+  | .thr _ tls => if own || c.foreignTls then viaMark c tls else []
 
-theorem viaMark_eq (o : Obj) : viaMark c o = if c.hasMark o.ty then markBody c o else [] := by
-  cases o <;> simp only [viaMark, markBody, Obj.ty] <;> (rename_i ty _; by_cases hx : c.hasMark ty = true <;> simp [hx])
+theorem viaMark_eq (o : Obj) : viaMark c o = if c.hasMark o.ty then markBody c true o else [] := by
+  cases o <;> simp only [viaMark, markBody, Obj.ty, Bool.true_or, if_true] <;>
+    (rename_i ty _; by_cases hx : c.hasMark ty = true <;> simp [hx])
 
 theorem fields_leaf (o : Obj) (hl : c.isLeaf o.ty = true) : fields c o = [] := by
   cases o <;> simp_all [fields, Obj.ty]
 
-theorem fields_mark (o : Obj) (hl : c.isLeaf o.ty = false) (hm : c.hasMark o.ty = true) : fields c o = markBody c o := by
+theorem fields_mark (o : Obj) (hl : c.isLeaf o.ty = false) (hm : c.hasMark o.ty = true) : fields c o = markBody c false o := by
   cases o <;> simp_all [fields, markBody, Obj.ty]
 
 theorem fields_scan (o : Obj) (hl : c.isLeaf o.ty = false) (hm : c.hasMark o.ty = false) :
@@ -121,7 +124,7 @@ theorem level_item_succ (d : Nat) (w : Word) (m : σ) :
 theorem level_recurse_succ (d : Nat) (o : Obj) (m : σ) :
     (level S c h (d + 1)).recurse o m =
       if c.isLeaf o.ty then .ok m
-      else if c.hasMark o.ty then markInst c (level S c h d).recurse (callback c h (level S c h d)) o m
+      else if c.hasMark o.ty then markInst c false (level S c h d).recurse (callback c h (level S c h d)) o m
       else match o with
         | .raw _ ws => foldRes (level S c h d).item (scanWords c ws) m
         | _ => .ok m := rfl
@@ -130,30 +133,36 @@ theorem level_recurse_succ (d : Nat) (o : Obj) (m : σ) :
 theorem markInst_agree (rec : Obj → σ → Res σ) (cb : Word → σ → Res σ)
     (hrec : ∀ o m m', rec o m = .ok m' → m' = dfs S c h (fields c o) m)
     (hcb : ∀ w m m', cb w m = .ok m' → m' = dfs S c h [w] m) :
-    ∀ (o : Obj) (m m' : σ), markInst c rec cb o m = .ok m' → m' = dfs S c h (markBody c o) m
-  | .raw _ _, m, m', hok => by
+    ∀ (own : Bool) (o : Obj) (m m' : σ), markInst c own rec cb o m = .ok m' → m' = dfs S c h (markBody c own o) m
+  | _, .raw _ _, m, m', hok => by
     simp only [markInst] at hok
     have hmm : m' = m := by simpa using hok.symm
     simp [markBody, dfs_nil, hmm]
-  | .cont _ es, m, m', hok => by
+  | _, .cont _ es, m, m', hok => by
     simp only [markInst] at hok
     have := foldRes_agree S c h rec (fields c) hrec es m m' hok
     simpa [markBody, fieldsL_eq_flatMap] using this
-  | .tup _ items, m, m', hok => by
+  | _, .tup _ items, m, m', hok => by
     simp only [markInst] at hok
     have := foldRes_agree S c h cb (fun w => [w]) hcb items m m' hok
     simpa [markBody] using this
-  | .thr _ tls, m, m', hok => by
+  | own, .thr _ tls, m, m', hok => by
     simp only [markInst] at hok
-    show m' = dfs S c h (viaMark c tls) m
-    rw [viaMark_eq]
+    simp only [markBody]
     split at hok
-    · rename_i hm
-      simp only [hm, if_true]
-      exact markInst_agree rec cb hrec hcb tls m m' hok
-    · rename_i hm
+    · rename_i hw
+      simp only [hw, if_true]
+      rw [viaMark_eq]
+      split at hok
+      · rename_i hm
+        simp only [hm, if_true]
+        exact markInst_agree rec cb hrec hcb true tls m m' hok
+      · rename_i hm
+        have hmm : m' = m := by simpa using hok.symm
+        simp [hm, dfs_nil, hmm]
+    · rename_i hw
       have hmm : m' = m := by simpa using hok.symm
-      simp [hm, dfs_nil, hmm]
+      simp [hw, dfs_nil, hmm]
 
 theorem accepts_eq (w : Word) :
     h.accepts w = ((w % 8 == 0 && decide (h.minptr ≤ w) && decide (w ≤ h.maxptr)) && (h.lookup w).isSome) := rfl
@@ -213,7 +222,7 @@ theorem level_agree (hg : c.guarded = true) : ∀ d : Nat,
         | true =>
           simp only [hmk, if_true] at hok
           rw [fields_mark c o hleaf hmk]
-          refine markInst_agree S c h _ _ ihR ?_ o m m' (by simpa using hok)
+          refine markInst_agree S c h _ _ ihR ?_ false o m m' (by simpa using hok)
           intro w m1 m2 hcb
           simp only [callback, hg, if_true] at hcb
           split at hcb
@@ -382,19 +391,23 @@ theorem foldRes_mono {α : Type} (f g : α → σ → Res σ) (xs : List α)
 
 theorem markInst_mono (rec rec' : Obj → σ → Res σ) (cb cb' : Word → σ → Res σ)
     (hrec : ∀ o m r, rec o m = .ok r → rec' o m = .ok r) (hcb : ∀ w m r, cb w m = .ok r → cb' w m = .ok r) :
-    ∀ (o : Obj) (m r : σ), markInst c rec cb o m = .ok r → markInst c rec' cb' o m = .ok r
-  | .raw _ _, m, r, hok => by simpa [markInst] using hok
-  | .cont _ es, m, r, hok => by
+    ∀ (own : Bool) (o : Obj) (m r : σ), markInst c own rec cb o m = .ok r → markInst c own rec' cb' o m = .ok r
+  | _, .raw _ _, m, r, hok => by simpa [markInst] using hok
+  | _, .cont _ es, m, r, hok => by
     simp only [markInst] at hok ⊢
     exact foldRes_mono rec rec' es (fun o _ => hrec o) m r hok
-  | .tup _ items, m, r, hok => by
+  | _, .tup _ items, m, r, hok => by
     simp only [markInst] at hok ⊢
     exact foldRes_mono cb cb' items (fun w _ => hcb w) m r hok
-  | .thr _ tls, m, r, hok => by
+  | own, .thr _ tls, m, r, hok => by
     simp only [markInst] at hok ⊢
     split at hok
-    · rename_i hm; simp only [hm, if_true]; exact markInst_mono rec rec' cb cb' hrec hcb tls m r hok
-    · rename_i hm; simp only [hm]; exact hok
+    · rename_i hw
+      simp only [hw, if_true]
+      split at hok
+      · rename_i hm; simp only [hm, if_true]; exact markInst_mono rec rec' cb cb' hrec hcb true tls m r hok
+      · rename_i hm; simp only [hm]; exact hok
+    · rename_i hw; simp only [hw]; exact hok
 
 theorem callback_mono (L L' : Level σ) (hi : ∀ w m r, L.item w m = .ok r → L'.item w m = .ok r)
     (hr : ∀ o m r, L.recurse o m = .ok r → L'.recurse o m = .ok r) :
@@ -453,7 +466,7 @@ theorem level_mono : ∀ d : Nat,
         split at hok
         · rename_i hm
           simp only [hm, if_true]
-          exact markInst_mono c _ _ _ _ ihR (callback_mono c h _ _ ihI ihR) o m r hok
+          exact markInst_mono c _ _ _ _ ihR (callback_mono c h _ _ ihI ihR) false o m r hok
         · rename_i hm
           simp only [hm]
           cases o with
@@ -496,13 +509,13 @@ theorem foldRes_cb_eq_item (hg : c.guarded = true) (L : Level σ) (items : List 
     words one by one completes, with the same mark bits -/
 def RecOK (o : Obj) (k : Nat) : Prop :=
   ∀ d m1 m2, foldRes (level S c h d).item (fields c o) m1 = .ok m2 → (level S c h (d + k)).recurse o m1 = .ok m2
-def InstOK (o : Obj) (k : Nat) : Prop :=
-  ∀ d m1 m2, foldRes (level S c h d).item (markBody c o) m1 = .ok m2 →
-    markInst c (level S c h (d + k)).recurse (callback c h (level S c h (d + k))) o m1 = .ok m2
+def InstOK (own : Bool) (o : Obj) (k : Nat) : Prop :=
+  ∀ d m1 m2, foldRes (level S c h d).item (markBody c own o) m1 = .ok m2 →
+    markInst c own (level S c h (d + k)).recurse (callback c h (level S c h (d + k))) o m1 = .ok m2
 def RecLOK (es : List Obj) (k : Nat) : Prop :=
   ∀ d m1 m2, foldRes (level S c h d).item (fieldsL c es) m1 = .ok m2 → foldRes (level S c h (d + k)).recurse es m1 = .ok m2
 
-theorem recOK_of_instOK (o : Obj) (k : Nat) (hi : InstOK S c h o k) : RecOK S c h o (k + 1) := by
+theorem recOK_of_instOK (o : Obj) (k : Nat) (hi : InstOK S c h false o k) : RecOK S c h o (k + 1) := by
   intro d m1 m2 hok
   rw [← Nat.add_assoc, level_recurse_succ]
   cases hleaf : c.isLeaf o.ty with
@@ -529,33 +542,36 @@ theorem recOK_of_instOK (o : Obj) (k : Nat) (hi : InstOK S c h o k) : RecOK S c 
 
 mutual
 theorem instOK_exists (hg : c.guarded = true) :
-    ∀ (o : Obj), (∀ w ∈ handed o, (h.lookup w).isSome = true) → ∃ k, InstOK S c h o k
-  | .raw _ _, _ => ⟨0, fun d m1 m2 hok => by simpa [markInst, markBody, foldRes] using hok⟩
-  | .cont _ es, hreg => by
+    ∀ (own : Bool) (o : Obj), (∀ w ∈ handed o, (h.lookup w).isSome = true) → ∃ k, InstOK S c h own o k
+  | _, .raw _ _, _ => ⟨0, fun d m1 m2 hok => by simpa [markInst, markBody, foldRes] using hok⟩
+  | _, .cont _ es, hreg => by
     obtain ⟨k, hk⟩ := recLOK_exists hg es (by simpa [handed] using hreg)
     exact ⟨k, fun d m1 m2 hok => by
       simp only [markInst]
       exact hk d m1 m2 (by simpa [markBody] using hok)⟩
-  | .tup _ items, hreg => ⟨0, fun d m1 m2 hok => by
+  | _, .tup _ items, hreg => ⟨0, fun d m1 m2 hok => by
       simp only [markInst, Nat.add_zero]
       rw [foldRes_cb_eq_item c h hg _ items (by simpa [handed] using hreg)]
       simpa [markBody] using hok⟩
-  | .thr ty tls, hreg => by
-    obtain ⟨k, hk⟩ := instOK_exists hg tls (by simpa [handed] using hreg)
+  | own, .thr ty tls, hreg => by
+    obtain ⟨k, hk⟩ := instOK_exists hg true tls (by simpa [handed] using hreg)
     refine ⟨k, fun d m1 m2 hok => ?_⟩
-    have hok' : foldRes (level S c h d).item (viaMark c tls) m1 = .ok m2 := hok
-    rw [viaMark_eq] at hok'
+    simp only [markBody] at hok
     simp only [markInst]
-    by_cases hm : c.hasMark tls.ty = true
-    · simp only [hm, if_true] at hok' ⊢; exact hk d m1 m2 hok'
-    · simp only [hm] at hok' ⊢; simpa [foldRes] using hok'
+    by_cases hw : (own || c.foreignTls) = true
+    · simp only [hw, if_true] at hok ⊢
+      rw [viaMark_eq] at hok
+      by_cases hm : c.hasMark tls.ty = true
+      · simp only [hm, if_true] at hok ⊢; exact hk d m1 m2 hok
+      · simp only [hm] at hok ⊢; simpa [foldRes] using hok
+    · simp only [hw] at hok ⊢; simpa [foldRes] using hok
 theorem recLOK_exists (hg : c.guarded = true) :
     ∀ (es : List Obj), (∀ w ∈ handedL es, (h.lookup w).isSome = true) → ∃ k, RecLOK S c h es k
   | [], _ => ⟨0, fun d m1 m2 hok => by simpa [fieldsL, foldRes] using hok⟩
   | o :: os, hreg => by
     have hreg1 : ∀ w ∈ handed o, (h.lookup w).isSome = true := fun w hw => hreg w (by simp [handedL, hw])
     have hreg2 : ∀ w ∈ handedL os, (h.lookup w).isSome = true := fun w hw => hreg w (by simp [handedL, hw])
-    obtain ⟨k1, hk1⟩ := instOK_exists hg o hreg1
+    obtain ⟨k1, hk1⟩ := instOK_exists hg false o hreg1
     obtain ⟨k2, hk2⟩ := recLOK_exists hg os hreg2
     have hr1 := recOK_of_instOK S c h o k1 hk1
     refine ⟨k1 + 1 + k2, fun d m1 m2 hok => ?_⟩
@@ -589,7 +605,7 @@ theorem rec_completes (hg : c.guarded = true) (safe : h.CallbackSafe) :
     | some e =>
       rw [fieldsAt_lookup hl] at hd
       obtain ⟨m2, h1, h2⟩ := foldRes_append_ok _ _ _ _ _ hd
-      obtain ⟨k, hk⟩ := instOK_exists S c h hg e.obj (safe w e hl)
+      obtain ⟨k, hk⟩ := instOK_exists S c h hg false e.obj (safe w e hl)
       have hr := recOK_of_instOK S c h e.obj k hk d _ m2 h1
       refine ⟨d + (k + 1) + 1, ?_⟩
       rw [dfs_cons_pos S c h w st m hw, fieldsAt_lookup hl]
@@ -646,7 +662,7 @@ theorem tlsPhase_agree (hg : c.guarded = true) (ht : c.tlsCallback = true) (d : 
   obtain ⟨ihI, ihR⟩ := level_agree S c h hg d
   by_cases hm : c.hasMark thread.ty = true
   · simp only [hm, if_true, ht] at hok ⊢
-    refine markInst_agree S c h _ _ ihR ?_ thread m m' hok
+    refine markInst_agree S c h _ _ ihR ?_ true thread m m' hok
     intro w m1 m2 hcb
     simp only [callback, hg, if_true] at hcb
     split at hcb
